@@ -631,7 +631,7 @@ func (st *wstate) checkMulti(i int, l *scen.Lifetime, lf *model.Life, after worl
 				}
 				return viol("entry-unexpected", i, -1, e.ID, props, "%s holds entry [%s] which should not exist (any more)", path, e.ID)
 			}
-			if w.Text.Known && w.Text.S != e.Body {
+			if w.Text.Known && EscapeEnd(w.Text.S) != e.Body {
 				return viol("entry-text-wrong", i, -1, e.ID, cleanLabelEntry(plan, touched, path, e.ID, callProps("C03")), "entry [%s] of %s holds %q, expected %q", e.ID, path, clip(e.Body), clip(w.Text.S))
 			}
 		}
